@@ -349,9 +349,11 @@ func afOps(thorough bool) []afOp {
 			m.opcr = unset(6)
 			return true
 		}})
-	ks := []int{0, 1, 3, 5, 6}
+	// 256 and 259: lengths that do not fit the one-byte inner length field (they
+	// can never be honoured; a length computed in a byte would see 0 and 3)
+	ks := []int{0, 1, 3, 5, 6, 256, 259}
 	if thorough {
-		ks = []int{0, 1, 2, 3, 5, 6, 7, 12, 13, 40}
+		ks = []int{0, 1, 2, 3, 5, 6, 7, 12, 13, 40, 255, 256, 259, 512}
 	}
 	for _, k := range ks {
 		k := k
